@@ -20,31 +20,66 @@ import (
 // place, a container over a nil is the new container, lists merge index-wise
 // and the surplus is appended.
 
-// merge merges from into to; both are treated as containers.
-func (h *hist) merge(to, from *model.Node) {
+// merge merges from into to under the policy pol (the same at every level, as
+// a global merge option); both are treated as containers. Settings of to that
+// stay in the tree stay the objects they were: the elements of a list that is
+// appended or prepended to keep their identity (they only move), a replaced
+// list or dictionary is made of new settings.
+func (h *hist) merge(to, from *model.Node, pol model.Policy) {
+	if len(from.D) > 0 && pol == model.PReplace {
+		to.D = nil
+	}
 	for k, v := range from.D {
 		if to.D == nil {
 			to.D = map[string]*model.Node{}
 		}
-		to.D[k] = h.mergeValue(to.D[k], v)
+		to.D[k] = h.mergeValue(to.D[k], v, pol)
 	}
-	for i, v := range from.A {
-		if i < len(to.A) {
-			to.A[i] = h.mergeValue(to.A[i], v)
-		} else {
+	switch pol {
+	case model.PReplace, model.PArrReplace:
+		if len(from.A) > 0 {
+			to.A = nil
+			for _, v := range from.A {
+				to.A = append(to.A, v.Copy())
+			}
+			to.HasA = true
+		}
+	case model.PPrepend:
+		if len(from.A) > 0 {
+			na := make([]*model.Node, 0, len(from.A)+len(to.A))
+			for _, v := range from.A {
+				na = append(na, v.Copy())
+			}
+			for _, v := range to.A {
+				h.shifted[v] = h.stepNo
+			}
+			to.A = append(na, to.A...)
+			to.HasA = true
+		}
+	case model.PAppend:
+		for _, v := range from.A {
 			to.A = append(to.A, v.Copy())
 			to.HasA = true
+		}
+	default:
+		for i, v := range from.A {
+			if i < len(to.A) {
+				to.A[i] = h.mergeValue(to.A[i], v, pol)
+			} else {
+				to.A = append(to.A, v.Copy())
+				to.HasA = true
+			}
 		}
 	}
 }
 
-func (h *hist) mergeValue(old, v *model.Node) *model.Node {
+func (h *hist) mergeValue(old, v *model.Node, pol model.Policy) *model.Node {
 	if old == nil {
 		return v.Copy()
 	}
 	switch {
 	case old.IsSub() && v.IsSub():
-		h.merge(old, v)
+		h.merge(old, v, pol)
 		h.mergedInto[old] = h.stepNo
 		return old
 	case old.IsSub() && v.Kind == model.KNil:
@@ -52,7 +87,7 @@ func (h *hist) mergeValue(old, v *model.Node) *model.Node {
 		return old
 	case old.Kind == model.KNil && v.IsSub():
 		n := &model.Node{Kind: model.KSub}
-		h.merge(n, v)
+		h.merge(n, v, pol)
 		return n
 	case old.Kind == model.KNil && v.Kind == model.KNil:
 		n := model.Nil()
@@ -186,6 +221,29 @@ func (h *hist) underMerged(root *model.Node, path []model.Fld, since int) bool {
 	return false
 }
 
+// shiftedSince reports whether the node at path (from root) or a container it
+// sits in is a list element that a prepending Merge moved up after step since.
+func (h *hist) shiftedSince(root *model.Node, path []model.Fld, since int) bool {
+	cur := root
+	for _, f := range path {
+		if cur == nil {
+			return false
+		}
+		if f.IsI {
+			if f.Idx >= len(cur.A) {
+				return false
+			}
+			cur = cur.A[f.Idx]
+		} else {
+			cur = cur.D[f.Name]
+		}
+		if h.shifted[cur] > since {
+			return true
+		}
+	}
+	return false
+}
+
 // libAt walks the library's tree from the root one segment at a time (no
 // options: a name is one raw segment).
 func (h *hist) libAt(path []model.Fld) *ucfg.Config {
@@ -237,6 +295,8 @@ func (h *hist) staleClass(x *handle, base string) string {
 		}
 	}
 	switch {
+	case h.shiftedSince(from, rel, x.born):
+		return "child-handle-detached-by-prepend-merge"
 	case h.underMerged(from, rel, x.born):
 		return "child-handle-detached-by-merge"
 	case x.n.Kind != model.KSub:
@@ -303,10 +363,16 @@ func (h *hist) walkAddr(t *handle) (string, int, bool) {
 	if len(path) == 0 {
 		return "", 0, false
 	}
+	// an index above the maximum index can only be said as the idx argument
+	for i, f := range path {
+		if f.IsI && f.Idx > h.maxIdx && i < len(path)-1 && !(h.sep == "" && i == 1) {
+			return "", 0, false
+		}
+	}
 	if h.sep == "" {
 		switch {
 		case path[0].IsI:
-			if r.Intn(2) == 0 {
+			if r.Intn(2) == 0 || path[0].Idx > h.maxIdx {
 				return "", path[0].Idx, true
 			}
 			return strconv.Itoa(path[0].Idx), -1, true
@@ -316,9 +382,11 @@ func (h *hist) walkAddr(t *handle) (string, int, bool) {
 		return path[0].Name, -1, true
 	}
 	idx := -1
-	if last := path[len(path)-1]; last.IsI && len(path) > 1 && r.Intn(2) == 0 {
+	if last := path[len(path)-1]; last.IsI && len(path) > 1 && (r.Intn(2) == 0 || last.Idx > h.maxIdx) {
 		idx = last.Idx
 		path = path[:len(path)-1]
+	} else if last.IsI && last.Idx > h.maxIdx {
+		return "", last.Idx, true
 	}
 	var segs []string
 	for _, f := range path {
